@@ -47,3 +47,34 @@ Fixpoint close_at_end (es : list sevent) : list sevent :=
 
 (* the peer of a server is a client and vice versa; same negotiated extension, no limits *)
 Definition peer_cfg (cfg : wcfg) : scfg := mkScfg (negb (wc_server cfg)) (wc_compress cfg) 0 0 no_avail.
+
+(* ---- with writers the application left open: the message of an open writer is finished (and so
+   must be read by the peer) when a later NextWriter / WriteMessage begins a new message *)
+Fixpoint xops_events (pending : list sevent) (ops : list xop) (oks : list bool) : list sevent :=
+  match ops, oks with
+  | x :: ops', ok :: oks' =>
+      match x with
+      | XOp _ o =>
+          let flushed := if begins_message o then pending else [] in
+          let pending' := if begins_message o then [] else pending in
+          flushed ++ (if ok then message_events (op_type o) (op_data o) else []) ++ xops_events pending' ops' oks'
+      | XOpen typ cs =>
+          pending ++ xops_events (if ok then message_events typ (flat_map chunk_bytes cs) else []) ops' oks'
+      end
+  | _, _ => []
+  end.
+
+(* a write may only be refused for a reason the API documents: 1 invalid control frame (control
+   types only), 2 bad message type (neither data nor control), 3 a close frame was sent before *)
+Definition xop_type (x : xop) : N := match x with XOp _ o => op_type o | XOpen t _ => t end.
+Fixpoint errs_justified (closed : bool) (ops : list xop) (errs : list N) : bool :=
+  match ops, errs with
+  | x :: ops', e :: errs' =>
+      let t := xop_type x in
+      let isdata := (t =? 1) || (t =? 2) in
+      let isctl := (t =? 8) || (t =? 9) || (t =? 10) in
+      ((e =? 0) || ((e =? 1) && isctl) || ((e =? 2) && negb isdata && negb isctl) || ((e =? 3) && closed))
+      && errs_justified (closed || ((t =? 8) && (e =? 0))) ops' errs'
+  | [], [] => true
+  | _, _ => false
+  end.
